@@ -896,4 +896,91 @@ Section Out.
 
   Lemma hits_notified t o : hits t o = map (ino_of t) (notified o).
   Proof. destruct o; reflexivity. Qed.
+
+  (* ---------------------------------------------------------------- the step out of the pending state *)
+  (* The first record of the next operation forgets the departed sub-tree (settle_pending / forget_tree), the kernel
+     queues IN_IGNORED records for the forgotten descriptors, and the rest of the batch is processed as from a
+     synchronised state.  Hypotheses: the operation does not notify a directory inside the departed directory at its
+     new place h, and it produces at least one record. *)
+  Theorem pout_step w k r h c p o w' : mask_ok C -> POut w k r h c p -> covered_op C w o ->
+    (forall d, In d (notified o) -> blw h d = false) -> apply_op w o = Some w' ->
+    let k1 := kernel_op k (w_fs w) o in k_queue k1 <> [] ->
+    exists r' k' evs, read_batch C (w_fs w') (r, drainq k1, []) (k_queue k1) = Done (r', k', evs) /\
+      JSync w' k' r' /\ Forall (rsafe C) evs.
+  Proof.
+    intros M PO Ho Hnh Ha k1 Qne. destruct PO as [Ppend Pck Pq Ptight Plt Pwds Plive Pclean Pcov Pstale].
+    destruct (forget_tree_fold p (wfp r) (rclr r)) as (wds & rC & Hfold & Hwds).
+    rewrite Hfold in Pclean. cbn [fst snd] in Pclean.
+    set (kC0 := kset_queue (fold_left krm_watch wds k) []) in *.
+    assert (W := rs_wf _ _ _ _ Pclean).
+    destruct (fold_krm wds k) as (FA & FB & FD & _).
+    assert (KR : krel (keepf wds) k kC0) by (repeat split; cbn; try assumption; now rewrite Pq).
+    (* the operation does not notify a departed directory *)
+    assert (Hfz : forall wd, In wd wds -> fz r p wd).
+    { intros wd Hw. destruct (Hwds wd Hw) as (x & A & _ & D). exists x. now split. }
+    assert (NH : forall i, In i (hits (w_fs w) o) -> nohit_ino (keepf wds) k i).
+    { intros i Hi kw Hk Ei. destruct (keepf wds kw) eqn:Ek; [reflexivity|]. exfalso.
+      unfold keepf in Ek. apply negb_false_iff, memN_in in Ek.
+      destruct (Pstale kw Hk (Hfz _ Ek)) as (e & He & Ie & Hb).
+      rewrite hits_notified in Hi. apply in_map_iff in Hi as (d & Ed & Hd). specialize (Hnh d Hd).
+      unfold ino_of in Ed. destruct (flookup d (w_fs w)) as [e'|] eqn:El.
+      - destruct (flookup_some _ _ _ El) as [He' Ee']. assert (e' = e) by (apply (ino_inj w); try assumption; congruence). subst e'.
+        congruence.
+      - assert (H0 := wf_fresh w W e He). lia. }
+    assert (KR1 := kernel_op_krel (keepf wds) k kC0 (w_fs w) o KR NH). fold k1 in KR1.
+    set (kCc := kernel_op kC0 (w_fs w) o) in *.
+    destruct (cover_step_safe C Hfaults w kC0 rC o w' M Pclean Ho Ha) as (r2 & k2 & evs & Hrd & S2 & Hsafe). fold kCc in Hrd.
+    destruct KR1 as (KA & KB & KD & KE). rewrite KE in Hrd.
+    exists r2. destruct (k_queue k1) as [|e1 rest] eqn:EQ; [contradiction|].
+    (* the first record settles the candidate: the sub-tree is forgotten *)
+    assert (He1 : is_moved_to (k_mask e1) && N.eqb (k_cookie e1) c && amem N.eqb (k_wd e1) (pfw r) = false).
+    { assert (HT := kernel_op_tocookie k (w_fs w) o Pq). fold k1 in HT. rewrite EQ in HT. inversion HT as [|? ? Ht _]; subst.
+      destruct (is_moved_to (k_mask e1)) eqn:Em; [|reflexivity]. rewrite (Ht Em). cbn [andb].
+      assert (Hc : N.eqb (k_next_cookie k) c = false) by (apply N.eqb_neq; lia). now rewrite Hc. }
+    cbn [read_batch]. unfold read_one at 1. rewrite (settle_pending_forget C r (drainq k1) e1 c p Hmo Ppend He1).
+    change {| wfp := wfp r; pfw := pfw r; mvf := mvf r; calls := calls r; pend := None |} with (rclr r). rewrite Hfold.
+    set (kF := fold_left krm_watch wds (drainq k1)).
+    destruct (fold_krm wds (drainq k1)) as (GA & GB & GD & ig & GE & GF). fold kF in GA, GB, GD, GE.
+    cbn [drainq kset_queue k_watches k_next_wd k_next_cookie k_queue app] in GA, GB, GD, GE.
+    (* the two kernels the reader holds differ by junk only *)
+    assert (Hnw : k_next_wd k1 = k_next_wd k) by apply kernel_op_next_wd.
+    assert (QJ : qextj ig kF (drainq kCc)).
+    { split; [repeat split; cbn; try congruence; now rewrite GE, app_nil_r|].
+      intros a Ha'. rewrite Forall_forall in GF. specialize (GF a Ha'). split.
+      - cbn. rewrite KB, Hnw. destruct (Hfz _ GF) as (x & _ & Hx). destruct (Plive x _ Hx) as (kw & Hk & Ek). rewrite <- Ek. now apply Plt.
+      - intros kw Hk Eq. cbn in Hk. rewrite KA in Hk. apply filter_In in Hk as [_ Hk]. unfold keepf in Hk.
+        apply negb_true_iff in Hk. rewrite Eq in Hk. apply memN_in in GF. congruence. }
+    (* the clean run *)
+    cbn [read_batch] in Hrd. rewrite read_one_body_eq in Hrd by apply (rs_pend _ _ _ _ Pclean).
+    assert (B1 := read_one_body_keq (qextj ig) (qextj_add ig) (w_fs w') rC kF (drainq kCc) [] e1 QJ).
+    destruct (read_one_body C (w_fs w') (rC, drainq kCc, []) e1) as [[[ra ka] xa]|] eqn:Eb; [|discriminate].
+    destruct (read_one_body C (w_fs w') (rC, kF, []) e1) as [[[ra' ka'] xa']|] eqn:Eb'; [|contradiction].
+    cbn in B1. destruct B1 as (-> & -> & QJ1).
+    assert (B2 := read_batch_keq (qextj ig) (qextj_add ig) (qextj_rm ig) (w_fs w') rest ra ka' ka xa QJ1). rewrite Hrd in B2.
+    destruct (read_batch C (w_fs w') (ra, ka', xa) rest) as [[[rb kb] xb]|] eqn:Er; [|contradiction].
+    cbn in B2. destruct B2 as (-> & -> & QJ2).
+    exists kb, evs. split; [reflexivity|]. split; [|exact Hsafe].
+    (* dead descriptors *)
+    assert (D0 : dinv (fun wd => In wd wds) kF rC).
+    { intros wd Hw. destruct (Hwds wd Hw) as (x & Hb & Hkx & Hx).
+      destruct (forget_tree_spec p (wfp r) (rclr r) k rC (fold_left krm_watch wds k) Ptight (Hfold k))
+        as (_ & W0 & _ & W2 & _ & _ & P2 & _).
+      split; [|split; [|split]].
+      - rewrite GB. cbn. rewrite Hnw. destruct (Plive x _ Hx) as (kw & Hk & Ek). rewrite <- Ek. now apply Plt.
+      - intros kw Hk Eq. rewrite GA in Hk. apply filter_In in Hk as [_ Hk]. unfold keepf in Hk. apply negb_true_iff in Hk.
+        rewrite Eq in Hk. apply memN_in in Hw. congruence.
+      - exact (P2 x wd Hb Hkx Hx).
+      - intros x' Hx'. assert (Hx'' := W0 _ _ Hx'). cbn [rclr wfp] in Hx''.
+        assert (x' = x) by (apply Ptight in Hx''; apply Ptight in Hx; congruence). subst x'.
+        rewrite (W2 x Hb Hkx) in Hx'. discriminate. }
+    assert (D1 := read_one_body_dinv _ _ _ _ _ _ _ _ _ D0 Eb').
+    assert (D2 := read_batch_dinv _ _ _ _ _ _ _ _ _ D1 Er).
+    destruct QJ2 as [(QA & QB & QD & QE) _]. rewrite (rs_queue _ _ _ _ S2), app_nil_r in QE.
+    split.
+    - assert (Ek : kset_queue kb [] = k2).
+      { assert (Hq2 := rs_queue _ _ _ _ S2). clear -QA QB QD Hq2. destruct k2 as [a1 a2 a3 a4], kb as [b1 b2 b3 b4]. cbn in *. subst. reflexivity. }
+      now rewrite Ek.
+    - rewrite QE. apply Forall_forall. intros a Ha'. rewrite Forall_forall in GF. specialize (GF a Ha').
+      destruct (D2 _ GF) as (_ & B & P1 & _). split; [exact P1 | exact B].
+  Qed.
 End Out.
